@@ -9,19 +9,23 @@ C06_REASONS = {
 }
 
 MC_INV = ["INVARIANTS MonOK QuiesceOK WedgeFree PendingExact CapsOK LimExact", "VIEW View", "CHECK_DEADLOCK FALSE"]
-BASE = {"Peers": {"p1", "p2"}, "AddrsOf": "<- AddrsOne", "Fixed": "<- FixedNow"}
+BASE = {"Peers": {"p1", "p2"}, "AddrsOf": "<- AddrsOne", "Fixed": "<- FixedNow", "WsAddrs": "<- NoWs"}
+TWO = dict(BASE, AddrsOf="<- AddrsTwoTr", WsAddrs="<- WsDef")
 
 
 def mc_runs(ctx, which):
     """exhaustive TLC runs; returns list of stats"""
     if ctx.quick():
         runs = [("small", dict(BASE, Limits="<- LimSmall", MaxCid=3)), ("none", dict(BASE, Limits="<- LimNone", MaxCid=3)),
-                ("asym", dict(BASE, Limits="<- LimAsym", MaxCid=3))]
+                ("asym", dict(BASE, Limits="<- LimAsym", MaxCid=3)),
+                ("two2", dict(TWO, Limits="<- LimSmall", MaxCid=2)), ("two2n", dict(TWO, Limits="<- LimNone", MaxCid=2))]
     else:
         runs = [("small4", dict(BASE, Limits="<- LimSmall", MaxCid=4)),
                 ("mixed", dict(BASE, Limits="<- LimMixed", MaxCid=3, AddrsOf="<- AddrsDef")),
                 ("two", dict(BASE, Limits="<- LimTwo", MaxCid=3)),
-                ("asym", dict(BASE, Limits="<- LimAsym", MaxCid=3))]
+                ("asym", dict(BASE, Limits="<- LimAsym", MaxCid=3)),
+                ("tcp+ws", dict(TWO, Limits="<- LimSmall", MaxCid=3)), ("tcp+ws-n", dict(TWO, Limits="<- LimNone", MaxCid=3)),
+                ("tcp+ws-b", dict(TWO, AddrsOf="<- AddrsTwoTr2", Limits="<- LimNone", MaxCid=3))]
     out = []
     for name, consts in runs:
         r = tlc_mc(ctx, "ConnMgrMC.tla", write_cfg(ctx, "mc_%s.cfg" % name, consts, ["SPECIFICATION Spec"] + MC_INV),
@@ -37,18 +41,24 @@ def mc_runs(ctx, which):
 
 def generate(ctx):
     gl = ["SPECIFICATION Spec", "VIEW GenView", "ACTION_CONSTRAINT Emit", "CHECK_DEADLOCK FALSE"]
-    sets = [("LimSmall", 2), ("LimNone", 2), ("LimTwo", 2), ("LimAsym", 2), ("LimLeak", 3), ("LimSmall", 3), ("LimAsym", 3)] if ctx.quick() else [("LimSmall", 3), ("LimLeak", 3), ("LimAsym", 3), ("LimNone", 2), ("LimTwo", 2)]
+    # (limit set, connection ids, two transports?)
+    sets = ([("LimSmall", 2, False), ("LimNone", 2, False), ("LimTwo", 2, False), ("LimAsym", 2, False), ("LimLeak", 3, False),
+             ("LimSmall", 3, False), ("LimSmall", 2, True), ("LimNone", 2, True)]
+            if ctx.quick() else
+            [("LimSmall", 3, False), ("LimLeak", 3, False), ("LimAsym", 3, False), ("LimNone", 2, False), ("LimTwo", 2, False),
+             ("LimSmall", 2, True), ("LimNone", 2, True), ("LimTwo", 2, True)])
     behs, stats = [], []
     import random
-    for lim, mc in sets:
-        b, g = tlc_generate(ctx, "ConnMgrMC.tla", write_cfg(ctx, "gen_%s%d.cfg" % (lim, mc), dict(BASE, Limits="<- " + lim, MaxCid=mc), gl), timeout=3000)
+    for lim, mc, two in sets:
+        base = TWO if two else BASE
+        b, g = tlc_generate(ctx, "ConnMgrMC.tla", write_cfg(ctx, "gen_%s%d%s.cfg" % (lim, mc, "two" if two else ""), dict(base, Limits="<- " + lim, MaxCid=mc), gl), timeout=3000)
         if ctx.quick() and len(b) > 12000:
             # quick tier: a seeded sample of the deeper graph, the thorough tier replays all of it
             g["sampled_from"] = len(b)
             b = random.Random(ctx.seed).sample(b, 9000)
             g["behaviours"] = len(b)
         behs += b
-        g["cfg"] = "%s/MaxCid=%d" % (lim, mc)
+        g["cfg"] = "%s/MaxCid=%d%s" % (lim, mc, "/tcp+ws" if two else "")
         stats.append(g)
         log("GEN %s" % g)
     return behs, stats
